@@ -28,6 +28,9 @@ var verifKeyShapes = []string{
 	"match (n {`ZZQMARK`: 1}) return n",
 	"match (n) return n.`ZZQMARK`",
 	"match (n)-[r:MemberOf*1..2]->(m) where m.`ZZQMARK` = 'v' return n",
+	"match (n) where n.name = 'x' set n.`ZZQMARK` = 1 return n",
+	"match (n) where n.name = 'x' remove n.`ZZQMARK` return n",
+	"match (n)-[r]->(m) where n.name = 'x' set r.`ZZQMARK` = 'v', m.other = 2 return r",
 }
 
 // templates with the marker as a result alias / variable name / kind name
